@@ -34,6 +34,9 @@ CHECKS = {
  "C04": ("exploration", "hostile-parameter workload against a uid-confined gateway in a jail tree with canaries at every directory level; monitors: byte-exact snapshot of everything outside the named bucket, canary contents / planted names in responses, sibling objects of the named bucket",
    "Every path-like client parameter (bucket, key, copy source parts, listing prefix/markers/delimiter, versionId, uploadId, partNumber, DeleteObjects keys and version ids, admin bucket) is filled with escapes (13 spellings of '..' x depth 1-8 x file/directory tails, absolute paths) on every operation that takes it, by the bucket's non-admin owner and by root; after each request the whole jail is diffed and the response is searched for canaries.",
    "Trusts snapshot completeness (content hash, mode, owner, xattrs); escapes that fasthttp or the URI/signature layer refuse never reach the handlers and are counted but trivial. The gateway runs as uid 4242 so that a confinement bug cannot touch the machine.", "3/C04"),
+ "C12": ("exploration", "fragmentation-enumerating reader shim around the exported chunk readers (every single cut and header-neighbourhood cut pairs of short streams, boundary-biased cuts of long ones, 12 destination buffer sizes) with an independent encoder; every single-byte mutation and truncation of short streams; real chunked PUTs over sockets written in chosen fragments",
+   "For legal streams of all three aws-chunked modes and five checksum algorithms the decoded bytes must equal the payload and end with io.EOF under EVERY enumerated fragmentation and buffer size; every single-byte mutation, truncation point and named defect of short streams must end in an error or in exactly the payload. Exhaustive over single cuts for streams <= 600 bytes; long streams and socket fragmentation are sampled.",
+   "Trusts the harness encoder (written from the AWS specification and self-checked per stream), and that a reader-level fragmentation shim represents network read boundaries.", "3/C12"),
 }
 PENDING_REASON = "check not yet built in this session (under construction; see DESIGN.md section 3)"
 props=[json.loads(l)["id"] for l in open(os.path.join(V,"properties.jsonl"))]
